@@ -85,6 +85,7 @@ func c15run(sc c15scenario, prefix []string) (res c15result, choices [][]string,
 	ctl.Spawn("0", func() string {
 		for i := 0; i < sc.prePop; i++ {
 			if it, ok := q.Pop(); ok {
+				got = append(got, fmt.Sprintf("(Some %d)", uint64(it)))
 				gotOK = append(gotOK, uint64(it))
 			}
 		}
@@ -233,10 +234,9 @@ func c15emit(out *vharness.Out, kind string, sc c15scenario, r c15result, capaci
 	}
 	coq := fmt.Sprintf("CSched %d %s %s %s %s %s", capacity, sc.coq(), vharness.Ns(r.sched), vharness.List(obs), vharness.List(r.got), vharness.Ns(r.finalQ))
 	if sc.prePop > 0 {
-		key := fmt.Sprintf("prepop|%v|%v", sc, r.sched)
-		out.Emit(vharness.Case{Kind: kind + "-pop-then-wait", Key: key, Nontrivial: true, OracleOK: ok, Note: note, Sig: sig,
-			Replay: map[string]any{"scenario": sc, "schedule": r.sched}})
-		return
+		// the consumer first Pops: the model's consumer has the same program (CSchedPop)
+		coq = fmt.Sprintf("CSchedPop %d %d %s %s %s %s %s", capacity, sc.prePop, sc.coq(), vharness.Ns(r.sched), vharness.List(obs), vharness.List(r.got), vharness.Ns(r.finalQ))
+		kind += "-pop-then-wait"
 	}
 	preempt := false
 	for i := 1; i < len(r.sched); i++ {
